@@ -51,6 +51,8 @@ def gen_cases(tier, seed):
     # long windows: weeks to months, across month ends, a year end and a leap day
     for i in range(len(long_instants())):
         yield {'k': 'long', 'start': i, 'tier': tier}
+        if i % 4 == 0:   # a category whose text contains date-format / string-format metacharacters
+            yield {'k': 'long', 'start': i, 'tier': tier, 'cat': 'p95%Hourly %M {0} report'}
 
 
 LONG_DAYS = [(2019, 10, 31), (2019, 11, 1), (2019, 11, 15), (2019, 11, 30), (2019, 12, 1), (2019, 12, 15), (2019, 12, 31), (2020, 1, 1), (2020, 1, 15),
@@ -69,10 +71,11 @@ def _long(case, viols):
     fakes3.new_store(lambda: pytz.utc.localize(_clock[0]))
     w = S3TapeCassette('bucket', key_prefix='p', read_only=False)
     recs = []
+    cat = case.get('cat', 'Op')
     for d in LONG_DAYS:
         t = datetime.datetime(*d) + datetime.timedelta(hours=12)
         _clock[0] = t
-        r = w.create_new_recording('Op')
+        r = w.create_new_recording(cat)
         r.set_data('k', 1)
         w.save_recording(r)
         recs.append((r.id, t))
@@ -86,7 +89,7 @@ def _long(case, viols):
         ref = sorted(t.isoformat() for rid, t in recs if sd <= t <= ed)
         times = {rid: t for rid, t in recs}
         try:
-            ids = list(reader.iter_recording_ids('Op', start_date=sd, end_date=ed))
+            ids = list(reader.iter_recording_ids(cat, start_date=sd, end_date=ed))
             got = sorted(times[x].isoformat() if x in times else 'unknown:' + x for x in ids)
         except Exception as ex:
             viols.append(viol('long:raised:%s' % type(ex).__name__, 'window [%s, %s] raised' % (sd, ed), ref, repr(ex)))
